@@ -235,7 +235,9 @@ Proof.
     inv H. injection H as <-. coords_sameE.
   - (* ESetResult *)
     apply busy_false_of_if in H as [Hb H].
-    destruct (find_task k (tasks s)) as [x|] eqn:Eft; [|discriminate]. inv H.
+    destruct (find_task k (tasks s)) as [x|] eqn:Eft; [|discriminate].
+    destruct (_ && _) eqn:Heqb in H; [|discriminate].
+    apply andb_prop in Heqb as [Heqb _].
     apply andb_prop in Heqb as [Hst Hfin]. apply tst_eqb_true in Hst.
     sub_on_coord H. injection Hf as <-.
     eapply upd_by_cstepE; [exact Hfc| |reflexivity]. eapply ce_result; eauto.
@@ -638,7 +640,8 @@ Proof.
     eapply upd_task_by_tstepE_f; [exact Eft| |intros y; now destruct ok].
     destruct ok.
     + apply te_main_ok; [kid|now apply tst_eqb_true|exact Hb| |].
-      * intros Hfin. rewrite Hfin in *. cbn in *. unfold coord_success. now rewrite Efc.
+      * intros Hfin. rewrite Hfin in *. unfold coord_success. rewrite Efc.
+        match goal with Hq : eqb true (status_eqb _ Success) = true |- _ => apply eqb_prop in Hq; now rewrite <- Hq end.
       * intros Hk. unfold KSubmission in *.
         destruct (k_kind t =? 0) eqn:Ek; [|lia].
         match goal with Hs : true && _ = true |- _ => cbn in Hs; apply orb_prop in Hs as [Hs|Hs]; lia end.
@@ -1139,7 +1142,8 @@ Proof.
     + left. unfold KSubmission in *. lia.
     + right; left. now apply mem_z_true.
     + right; right; left. exact Hf.
-    + right; right; right. apply andb_prop in Hf as [Hg1 Hg2]. split; now apply stage_eqb_eq.
+    + right; right; right. apply andb_prop in Hf as [Hg12 _]. apply andb_prop in Hg12 as [Hg1 Hg2].
+      split; now apply stage_eqb_eq.
   - intros k' x' Hx'. apply find_task_in in Hx'.
     match goal with Hf : forallb (fun x => k_id x <? k) _ = true |- _ => rewrite forallb_forall in Hf; specialize (Hf x' Hx') end.
     lia.
